@@ -1,12 +1,12 @@
 SPECIFICATION Spec
 CONSTANTS NP = 1
-          NC = 2
-          MCIgnored = {}
-          MCBig = {2}
+          NC = 3
           MaxPrio = 1
           Devs = {}
-          MCLimits = {1}
-          MCMsgLen = 2
+          MCLimits = {2}
+          MCMsgLen = 1
+          MCIgnored = {}
+          MCBig = {2}
           Cfgs <- MCCfgs
           Msgs <- MCMsgs
 INVARIANTS TypeOK BlockOnlyIfPresentWantedPermitted HaveOnlyIfPresent DontHaveOnlyIfAbsentAndAsked
